@@ -122,12 +122,8 @@ func (r *run) lifeBPMs(names []string) map[int]map[string]*bpmMat {
 	res := map[int]map[string]*bpmMat{1: {}, 2: {}}
 	for i, n := range names {
 		if b, _, err := buildBgBPM(rg, 1+i%3, i%2 == 1); err == nil {
-			if pre, err := pmanOf(b, 1); err == nil {
-				if err := b.VData.BGbpm.PMSE.SetSignature(bg.AlgRSASSA, r.keys[n], pre.ser[:pre.pmse]); err == nil {
-					if out, err := b.WriteBPM(); err == nil {
-						res[1][n] = &bpmMat{obj: b, file: append([]byte(nil), out...)}
-					}
-				}
+			if out, err := b.SignBPM("RSASSA", "SHA256", r.keys[n]); err == nil {
+				res[1][n] = &bpmMat{obj: b, file: append([]byte(nil), out...)}
 			}
 		}
 		if b, _, err := buildCbntBPM(rg, 1+i%3, 1+i%2, i%2 == 0, false, false, false); err == nil {
@@ -165,13 +161,13 @@ func (l *life) bindStruct(mats map[string]*bpmMat, y string, tag string) {
 func (l *life) bind(both *bootguard.BootGuard, y, tag string, extra map[string]interface{}) {
 	tr, fa := true, false
 	var exp *bool
-	rec := true
+	refused := false
 	if l.last != nil {
 		exp = &fa
 		if l.last.key == y {
 			exp = &tr
 		}
-		rec = !(l.gen == 1 && strings.EqualFold(l.last.alg, "SHA1"))
+		refused = l.gen == 1 && strings.EqualFold(l.last.alg, "SHA1")
 	}
 	d := l.input(map[string]interface{}{"check": tag, "bpm_signed_by": y})
 	if l.last != nil {
@@ -182,7 +178,7 @@ func (l *life) bind(both *bootguard.BootGuard, y, tag string, extra map[string]i
 	for k, v := range extra {
 		d[k] = v
 	}
-	l.r.bindCase(both, d, exp, rec)
+	l.r.bindCase(both, d, exp, refused)
 }
 
 // place = GetBPMPubHash on the object.  keyName "" + badKey: a key type the
@@ -638,7 +634,7 @@ func (r *run) bpmLife(gen, i int, names []string, kmFor map[string]*bootguard.Bo
 				c.OracleFail(-1, "cannot put the signed BPM next to a KM: "+err.Error(), "bootguard.NewBPMAndKM", d)
 				continue
 			}
-			r.bindCase(both, d, exp, true)
+			r.bindCase(both, d, exp, false)
 		}
 	}
 	reparse := func() {
